@@ -21,6 +21,23 @@ def make_archive(r, idx):
     return t, tar
 
 
+def entry_boundaries(tar):
+    """Offsets at which a new member (incl. its extension headers) starts."""
+    out = []
+    pos = 0
+    pending_ext = False
+    while pos + 512 <= len(tar) and tar[pos:pos + 512] != bytes(512):
+        h = tar[pos:pos + 512]
+        szf = h[124:136]
+        size = int.from_bytes(szf[1:], "big") if szf[0] & 0x80 else int(szf.strip(b"\0 ") or b"0", 8)
+        tf = h[156:157]
+        if not pending_ext and pos > 0:
+            out.append(pos)
+        pending_ext = tf in (b"x", b"L", b"K", b"g")
+        pos += 512 + ((size + 511) // 512 * 512 if tf not in (b"1", b"2", b"3", b"4", b"5", b"6") else 0)
+    return out
+
+
 def framings(r, codec, tar):
     """Yield (name, compressed bytes)."""
     yield "single", codecs.compress(codec, tar, r.choice([1, 6, 9]) if codec != "zstd" else r.choice([1, 3, 19]))
@@ -37,6 +54,16 @@ def framings(r, codec, tar):
         yield "sync-flush", codecs.gzip_with_sync_flushes(tar, cuts)[0]
     # a tiny first member (smaller than the 512 byte probe)
     yield "tiny-first-member", codecs.compress(codec, tar[:100]) + codecs.compress(codec, tar[100:])
+    # empty members: leading, at real tar entry boundaries, after a tiny member
+    empty = codecs.compress(codec, b"")
+    yield "empty-leading", empty + codecs.compress(codec, tar)
+    bounds = entry_boundaries(tar)
+    if bounds:
+        cuts = sorted(set(r.sample(bounds, min(len(bounds), 3))))
+        parts = [tar[a:b] for a, b in zip([0] + cuts, cuts + [len(tar)])]
+        yield "empty-at-entry-boundaries", empty.join(codecs.compress(codec, p) for p in parts)
+        yield "members-at-entry-boundaries", b"".join(codecs.compress(codec, p) for p in parts)
+    yield "empty-after-tiny", codecs.compress(codec, tar[:10]) + empty + empty + codecs.compress(codec, tar[10:])
 
 
 def t2s(B, data, chunk, work, tag, oc, timeout=120):
